@@ -46,7 +46,7 @@ class Check:
         self.extra = {}
         self.conformance_runs = 0
         self.known = load_known(prop)
-        self.replay_dir = os.path.join(VERIF, 'replays', prop)
+        self.replay_dir = os.path.join(VERIF, 'replays' if os.environ.get('VERIF_REPO', '/repo') == '/repo' else '.scratch_replays', prop)
         if os.path.isdir(self.replay_dir) and not os.environ.get('VERIF_KEEP_REPLAYS'):
             for f in os.listdir(self.replay_dir):          # replay files describe THIS run only
                 if f.endswith('.json'):
@@ -123,8 +123,10 @@ class Check:
         ev = {'property_id': self.prop, 'tier': self.tier, 'seed': self.seed, 'level': self.level,
               'coverage': cov, 'assumptions': self.assumptions, 'wall_s': round(wall, 3),
               'violations': len(self.violations)}
-        os.makedirs(os.path.join(VERIF, 'evidence'), exist_ok=True)
-        with open(os.path.join(VERIF, 'evidence', self.prop + '.json'), 'w') as fh:
+        # evidence/ holds runs against /repo itself only; runs against a scratch copy (canaries, seeded changes) go elsewhere
+        evdir = 'evidence' if os.environ.get('VERIF_REPO', '/repo') == '/repo' else '.scratch_evidence'
+        os.makedirs(os.path.join(VERIF, evdir), exist_ok=True)
+        with open(os.path.join(VERIF, evdir, self.prop + '.json'), 'w') as fh:
             json.dump(ev, fh, indent=1, default=str)
         for entry, ok in self.known_hits:
             print('KNOWN-FINDING: property=%s %s%s' % (self.prop, entry['what'],
